@@ -640,51 +640,80 @@ def _violation(g, k, clauses, nclass, nruns):
                 same_class_groups=nclass, same_class_runs=nruns, what=what)
 
 
+CHUNK = 25000
+
+
 def check_c01(out, tier, seed):
+    import shutil
     t0 = time.time()
     jobs, st, meta = mc_cases(tier)
     t1 = time.time()
     rjobs = random_jobs(TIERS[tier]["nrand"], seed)
-    groups = run_all(jobs + rjobs)
-    t2 = time.time()
-    rejects = validate(groups, "doc-val")
-    t3 = time.time()
-    # ---- coverage (measured from the cases that were run)
-    nruns = sum(len(g["runs"]) for g in groups)
+    alljobs = jobs + rjobs
+    trun = tval = 0.0
+    # coverage counters (measured from the cases that were run)
+    nruns = nouts = ngroups = 0
     distinct = set()
     rts, dts, entries, vlevels, vmodes = {}, {}, {}, {}, {}
-    for g in groups:
-        text = "\n".join(g["lines"])
-        nt = _nontrivial(g["lines"])
-        for c in g["cfgs"]:
-            if nt:
-                distinct.add((text, tuple(c)))
-            entries[c[2]] = entries.get(c[2], 0) + 1
-            vlevels[str(c[0])] = vlevels.get(str(c[0]), 0) + 1
-            vmodes[c[1]] = vmodes.get(c[1], 0) + 1
-        for x in g["lines"]:
-            f = x.split("\t")
-            rt = "#" if x.startswith("#") else (f[0] if f[0] in "HSLCPEGFOU" else "custom")
-            rts[g["ver"] + ":" + rt] = rts.get(g["ver"] + ":" + rt, 0) + 1
-            for y in f[1:]:
-                if project.TAG_RE.match(y):
-                    dts[y[3]] = dts.get(y[3], 0) + 1
+    docs = set()
+    maxenum = maxrand = 0
+    rejects, kept = [], {}
+    samples = []
+    for c0 in range(0, len(alljobs), CHUNK):
+        ta = time.time()
+        groups = run_all(alljobs[c0:c0 + CHUNK])
+        tb = time.time()
+        rej = validate(groups, "doc-val")
+        tc = time.time()
+        trun += tb - ta
+        tval += tc - tb
+        rejects += rej
+        bad = {r[0] for r in rej}
+        for g in groups:
+            if g["id"] in bad:
+                kept[g["id"]] = g
+            ngroups += 1
+            nruns += len(g["runs"])
+            nouts += len(g["outs"])
+            text = "\n".join(g["lines"])
+            nt = _nontrivial(g["lines"])
+            for c in g["cfgs"]:
+                if nt:
+                    distinct.add(hash((text, tuple(c))))
+                entries[c[2]] = entries.get(c[2], 0) + 1
+                vlevels[str(c[0])] = vlevels.get(str(c[0]), 0) + 1
+                vmodes[c[1]] = vmodes.get(c[1], 0) + 1
+            for x in g["lines"]:
+                f = x.split("\t")
+                rt = "#" if x.startswith("#") else (f[0] if f[0] in "HSLCPEGFOU" else "custom")
+                rts[g["ver"] + ":" + rt] = rts.get(g["ver"] + ":" + rt, 0) + 1
+                for y in f[1:]:
+                    if project.TAG_RE.match(y):
+                        dts[y[3]] = dts.get(y[3], 0) + 1
+            if g["kind"] == "enum":
+                docs.add((g["ver"], tuple(sorted(g["cat"]["doc"]))))
+                maxenum = max(maxenum, len(g["lines"]))
+            else:
+                maxrand = max(maxrand, len(g["lines"]))
+        for g in (groups[:2] + groups[-2:]):
+            if len(samples) < 6:
+                samples.append(dict(id=g["id"], kind=g["kind"], ver=g["ver"], lines=g["lines"],
+                                    configurations=len(g["cfgs"]), distinct_outcomes=len(g["outs"]),
+                                    written=list(g["outs"][0]["s"])))
+        del groups
+    shutil.rmtree(os.path.join(tlc.WORK, "doc-io"), ignore_errors=True)
     need_rt = {"gfa1:" + r for r in "H#SLCP"} | {"gfa2:" + r for r in "H#SEFGOU"} | {"gfa2:custom"}
     if not need_rt <= set(rts) or not set("AifZJHB") <= set(dts) or set(entries) != set(ENTRIES) \
             or set(vlevels) != set("0123") or set(vmodes) != {"explicit", "auto"}:
         raise MachineryError("coverage constraint not met: %r %r %r" % (sorted(rts), sorted(dts), sorted(entries)))
-    nenum = sum(1 for g in groups if g["kind"] == "enum")
     out.add_cov(evaluations=nruns, distinct_nontrivial=len(distinct),
                 rule="one evaluation = one document parsed through one configuration (vlevel, explicit/auto "
                      "version, entry point) and written back three ways + second round; non-trivial = distinct "
                      "(document text, configuration) whose document has a tagged line or a line that references "
                      "another (L C P E G F O U)",
-                documents=len({(g["ver"], tuple(sorted(g["cat"]["doc"]))) for g in groups if g["kind"] == "enum"}),
-                groups_enumerated=nenum, groups_random=len(groups) - nenum,
-                mc_states_generated=st[0], mc_states_distinct=st[1], groups_judged_by_tlc=len(groups),
-                distinct_outcomes_judged=sum(len(g["outs"]) for g in groups),
-                max_lines_enumerated=max(len(g["lines"]) for g in groups if g["kind"] == "enum"),
-                max_lines_random=max([len(g["lines"]) for g in groups if g["kind"] == "rand"] or [0]),
+                documents=len(docs), groups_enumerated=len(jobs), groups_random=len(rjobs),
+                mc_states_generated=st[0], mc_states_distinct=st[1], groups_judged_by_tlc=ngroups,
+                distinct_outcomes_judged=nouts, max_lines_enumerated=maxenum, max_lines_random=maxrand,
                 exhaustive=False)
     out.cov["bounds"] = dict(TIERS[tier], catalogue_lines={"gfa1": len(meta["rts"][1]), "gfa2": len(meta["rts"][2])},
                              tag_variants=meta["nvar"])
@@ -693,14 +722,11 @@ def check_c01(out, tier, seed):
     out.cov["entry_points_covered"] = entries
     out.cov["vlevels_covered"] = vlevels
     out.cov["version_modes_covered"] = vmodes
-    out.cov["wall_breakdown_s"] = dict(tlc_enumeration=round(t1 - t0, 1), gfapy_runs=round(t2 - t1, 1),
-                                       tlc_validation=round(t3 - t2, 1))
-    for g in (groups[:2] + groups[nenum:nenum + 2] + groups[nenum // 2:nenum // 2 + 1]):
-        out.samples.append(dict(id=g["id"], kind=g["kind"], ver=g["ver"], lines=g["lines"],
-                                configurations=len(g["cfgs"]), distinct_outcomes=len(g["outs"]),
-                                written=list(g["outs"][0]["s"])))
+    out.cov["wall_breakdown_s"] = dict(tlc_enumeration=round(t1 - t0, 1), gfapy_runs=round(trun, 1),
+                                       tlc_validation=round(tval, 1))
+    out.samples += samples
     # ---- violations, one per class of rejections (smallest documents first)
-    classes, by_id = _classes(groups, rejects)
+    classes, by_id = _classes(list(kept.values()), rejects)
     summary = []
     for key, c in sorted(classes.items(), key=lambda kv: (-kv[1]["n"], kv[0])):
         c["ex"].sort()
@@ -717,7 +743,7 @@ def check_c01(out, tier, seed):
         "same-identifier U lines are one record (items concatenated, tags united); both the merged and the "
         "unmerged form are accepted",
         "the integer subtype letter of a B array is a spelling (documented as recomputed from the range)",
-        "documents outside the catalogue are covered only by the seeded random driver (<= 25 lines); "
+        "documents outside the catalogue are covered only by the seeded random driver (<= ~25 lines); "
         "floats outside the spelling table are held to the fixed point only",
     ]
 
